@@ -121,50 +121,31 @@ def run(ctx, report):
     # ------------------------------------------------------------------ R13-pinned
     r4 = report.rule("R13-pinned", floor=200, what="every returned BBAN carries each pinned component unchanged (zero-padded) at its published range")
     countries = [cc for cc in sorted(reg.countries) if reg.positions(cc) and struct_positions(reg, cc)]
-    nbad = 0
     sites = {}
-    for cc in countries:
-        fields = country_fields(reg, cc)
-        for comp in sorted(fields):
-            if comp == "national_checksum_digits":
-                continue   # computed by the library where an algorithm exists
-            if comp not in GUARDED and ctx.tier == "quick" and not reg.countries[cc].get(f"default_{comp}") and comp not in ("currency_code", "account_type"):
-                continue
-            a, b, cls_letters = fields[comp]
-            w = b - a
-            pins = [("exact", pattern(cls_letters, salt=5))]
-            if w > 1:
-                pins.append(("short", pattern(cls_letters, salt=5)[: w - 1]))
-            pins.append(("too long", pattern(cls_letters, salt=5) + pattern(cls_letters, salt=5)[-1]))
-            if w > 2 and cls_letters[0] in "nc":
-                pins.append(("leading zeros", "00" + pattern(cls_letters, salt=5)[2:]))
-            for use_registry in (True, False):
-                for label, pin in pins:
-                    if ctx.tier == "quick" and label != "exact" and not use_registry:
-                        continue
-                    outs = _explore_random(ctx, bban, cc, use_registry, {comp: pin})
-                    r4.instance({"country": cc, "pinned": {comp: pin}, "registry": use_registry, "outcomes": sorted({o.kind for o in outs})} if (cc, comp, label) == ("PL", "branch_code", "exact") else None)
-                    for o in outs:
-                        if o.kind == "raise":
-                            if not is_library_exc(prog, o.value):
-                                key = ("raise", o.value.name, o.value.where)
-                                sites.setdefault(key, []).append((cc, comp, pin, use_registry))
-                            continue
-                        val = o.value.strval if isinstance(o.value, Obj) else None
-                        got = _slice(val, a, b)
-                        want = pin.zfill(w) if len(pin) <= w else None
-                        if want is None or got != want:
-                            key = ("pinned", comp, label)
-                            sites.setdefault(key, []).append((cc, comp, pin, use_registry, got))
+    from ..par import pmap
+    for n_inst, sample, found in pmap(lambda cc: _pinned_country(ctx, bban, cc), countries):
+        for _ in range(n_inst - (1 if sample else 0)):
+            r4.instance(None)
+        if sample:
+            r4.instance(sample)
+        for key, hit in found:
+            sites.setdefault(key, []).append(hit)
     for key, hits in sorted(sites.items(), key=lambda kv: str(kv[0])):
         cc, comp, pin, use_registry = hits[0][:4]
         ccs = sorted({h[0] for h in hits})
         if key[0] == "raise":
             r4.finding(f"BBAN.random:{key[1]}@{key[2]}", f"BBAN.random({cc!r}, {comp}={pin!r}) can raise {key[1]} at {key[2]} — not the documented overflow error",
                        key[2], witness={"country": cc, comp: pin, "use_registry": use_registry})
+        elif key[0] == "conform":
+            val, i = hits[0][4]
+            r4.finding(f"BBAN.random:nonconforming-{comp}-{key[2].replace(' ', '-')}", f"BBAN.random({cc!r}, {comp}={pin!r}, use_registry={use_registry}) can return the BBAN {val}, whose character {i + 1} "
+                       f"is not of the class the {cc} structure assigns to that position: an invalid object is returned instead of the overflow error "
+                       f"({len(ccs)} countr{'y' if len(ccs) == 1 else 'ies'}: {', '.join(ccs[:8])}{', ...' if len(ccs) > 8 else ''})", f_brand.where,
+                       witness={"country": cc, comp: pin, "use_registry": use_registry})
         else:
             got = hits[0][4]
-            how = "a value longer than the field is silently truncated instead of failing" if key[2] == "too long" else "the pinned value is overridden"
+            how = "a value longer than the field is silently truncated instead of failing" if key[2] == "too long" else (
+                "a value of the wrong character class is accepted" if key[2] == "wrong class" else "the pinned value is overridden")
             r4.finding(f"BBAN.random:pinned-{comp}-{key[2].replace(' ', '-')}", f"BBAN.random({cc!r}, {comp}={pin!r}, use_registry={use_registry}) can return a BBAN whose {comp} is {got!r}: {how} "
                        f"({len(ccs)} countr{'y' if len(ccs) == 1 else 'ies'}: {', '.join(ccs[:8])}{', ...' if len(ccs) > 8 else ''})", f_brand.where,
                        witness={"country": cc, comp: pin, "use_registry": use_registry})
@@ -223,8 +204,87 @@ def run(ctx, report):
     report.assumptions += ["rstr.xeger draws literals, ranges, \\d and bounded repeats through the supplied generator (read in rstr 3.2.2); random.Random is deterministic given its state"]
 
 
+def _pinned_country(ctx, bban, cc):
+    """All pin variants of one country: (instances, sample, [(site key, hit)]) - plain data (runs in a forked worker)."""
+    reg = ctx.registry
+    prog = ctx.program
+    n_inst = 0
+    sample = None
+    found = []
+    fields = country_fields(reg, cc)
+    st_cc = struct_positions(reg, cc)
+    for comp in sorted(fields):
+        if comp == "national_checksum_digits":
+            continue   # computed by the library where an algorithm exists
+        if comp not in GUARDED and ctx.tier == "quick" and not reg.countries[cc].get(f"default_{comp}") and comp not in ("currency_code", "account_type"):
+            continue
+        a, b, cls_letters = fields[comp]
+        w = b - a
+        pins = [("exact", pattern(cls_letters, salt=5))]
+        if w > 1:
+            pins.append(("short", pattern(cls_letters, salt=5)[: w - 1]))
+        pins.append(("too long", pattern(cls_letters, salt=5) + pattern(cls_letters, salt=5)[-1]))
+        if w > 2 and cls_letters[0] in "nc":
+            pins.append(("leading zeros", "00" + pattern(cls_letters, salt=5)[2:]))
+        if set(cls_letters) <= {"n"}:
+            pins.append(("wrong class", ("ABCDEFGHJKLMNPQRSTUVWXYZ" * 3)[:w]))
+            if comp in ("account_code", "bank_code"):
+                pins.append(("wrong class", "\u0663" * w))   # decimal digits outside ASCII: \d matches them, the structure class n does not
+        elif set(cls_letters) <= {"a"}:
+            pins.append(("wrong class", ("1234567890" * 4)[:w]))
+        for use_registry in (True, False):
+            for label, pin in pins:
+                if ctx.tier == "quick" and label != "exact" and not use_registry:
+                    continue
+                outs = _explore_random(ctx, bban, cc, use_registry, {comp: pin})
+                n_inst += 1
+                if (cc, comp, label) == ("PL", "branch_code", "exact"):
+                    sample = {"country": cc, "pinned": {comp: pin}, "registry": use_registry, "outcomes": sorted({o.kind for o in outs})}
+                for o in outs:
+                    if o.kind == "raise":
+                        if not is_library_exc(prog, o.value):
+                            key = ("raise", o.value.name, o.value.where)
+                            found.append((key, (cc, comp, pin, use_registry)))
+                        continue
+                    val = o.value.strval if isinstance(o.value, Obj) else None
+                    bad_at = _nonconforming(val, st_cc)
+                    if bad_at is not None:
+                        found.append((("conform", comp, label), (cc, comp, pin, use_registry, (_show(val), bad_at))))
+                        continue
+                    got = _slice(val, a, b)
+                    want = pin.zfill(w) if len(pin) <= w else None
+                    if label == "wrong class":
+                        want = None
+                    if want is None or got != want:
+                        key = ("pinned", comp, label)
+                        found.append((key, (cc, comp, pin, use_registry, got if isinstance(got, str) else repr(got))))
+    return n_inst, sample, found
+
+
 def fields_of(reg, cc):
     return country_fields(reg, cc)
+
+
+def _nonconforming(val, st):
+    """Index of the first position of the (abstract) BBAN text that can hold a character outside its structure class, the length
+    mismatch marker -1, or None when every concretisation conforms."""
+    from ..algo_eval import CLASS_CHARS
+    if st is None or val is None:
+        return None
+    pos = list(val) if isinstance(val, str) else (list(val.pos) if isinstance(val, AStr) else None)
+    if pos is None:
+        return None
+    if len(pos) != len(st):
+        return -1
+    for i, (p, k) in enumerate(zip(pos, st)):
+        chars = p.chars if isinstance(p, CharSet) else {p}
+        if not set(chars) <= set(CLASS_CHARS[k].chars):
+            return i
+    return None
+
+
+def _show(val):
+    return repr(val) if isinstance(val, str) else repr(val)[:120]
 
 
 def _slice(val, a, b):
